@@ -34,4 +34,25 @@ void h_uper_open_type_put(void) {
 	/* --memory-leak-check: the temporary encoding buffer is released on every path */
 }
 
+/* C03: an open type this version does not know is skipped whatever it contains (X.691 10.2: length determinant, then that
+ * many octets); the decoder ends right after it. */
+#ifndef VF_OTN
+#define VF_OTN 5
+#endif
+void h_uper_open_type_skip(void) {
+	VF_BYTES(buf, VF_OTN + 2); VF_SCALAR(unsigned, len); VF_SCALAR(size_t, skip);
+	__CPROVER_assume(len <= VF_OTN && skip <= 7);
+	asn_per_data_t pd; memset(&pd, 0, sizeof(pd));
+	unsigned char stream[VF_OTN + 3];
+	for(size_t i = 0; i < sizeof(stream); i++) stream[i] = 0;
+	/* write `skip` arbitrary bits, then len (8 bits), then the contents buf[1..len] */
+	unsigned char src[VF_OTN + 1]; src[0] = (unsigned char)len; for(size_t i = 1; i <= VF_OTN; i++) src[i] = buf[i];
+	for(size_t i = 0; i <= VF_OTN; i++) { stream[i] |= (unsigned char)(src[i] >> skip); stream[i + 1] |= (unsigned char)((src[i] << (8 - skip)) & 0xFF & (skip ? 0xFF : 0)); }
+	pd.buffer = stream; pd.nboff = skip; pd.nbits = skip + 8 * (1 + (size_t)len) + 3;      /* three more bits follow the open type */
+	int r = uper_open_type_skip(0, &pd);
+	VF_CANARY();
+	__CPROVER_assert(r == 0, "C03: an unknown open type of any length and contents is skipped");
+	if(r == 0) __CPROVER_assert(pd.moved == 8 * (1 + (size_t)len), "C03: exactly the length determinant and the contents are consumed");
+}
+
 VF_NATIVE_MAIN
